@@ -17,6 +17,7 @@ import (
 	"strconv"
 	"strings"
 	"sync"
+	"sync/atomic"
 	"syscall"
 	"time"
 )
@@ -125,6 +126,26 @@ func IDs() []string {
 
 // ---------------------------------------------------------------- child
 
+var caseStart atomic.Int64
+
+// CaseBudget is the wall-clock time one case may take inside a child before the child gives
+// up (exit code 4, goroutine dump on stderr): the driver goroutine itself is stuck, e.g. inside
+// a library call that never returns.  The parent records that case as inconclusive.
+var CaseBudget = 90 * time.Second
+
+func caseWatchdog() {
+	for {
+		time.Sleep(time.Second)
+		st := caseStart.Load()
+		if st != 0 && time.Since(time.Unix(0, st)) > CaseBudget {
+			buf := make([]byte, 4<<20)
+			n := runtime.Stack(buf, true)
+			fmt.Fprintf(os.Stderr, "CASE-WATCHDOG: case exceeded %v\n%s\n", CaseBudget, buf[:n])
+			os.Exit(4)
+		}
+	}
+}
+
 var cursorFile *os.File
 
 // Cursor records (cheaply, overwriting) what the child is about to do inside
@@ -151,7 +172,9 @@ func ChildMain(propID, tier string, seed int64, start, stride, n int, out string
 	}
 	defer f.Close()
 	cursorFile, _ = os.OpenFile(out+".cur", os.O_CREATE|os.O_RDWR|os.O_TRUNC, 0o644)
+	go caseWatchdog()
 	for idx := start; idx < n; idx += stride {
+		caseStart.Store(time.Now().UnixNano())
 		Cursor("")
 		fmt.Fprintf(f, "BEGIN %d\n", idx)
 		var res *Result
@@ -442,6 +465,18 @@ func RunParent(p *Prop, o Options) int {
 			if lastBegin != lastEnd && lastBegin >= 0 {
 				// the child died inside case lastBegin
 				eb, _ := os.ReadFile(errf)
+				if bytes.HasPrefix(eb, []byte("CASE-WATCHDOG")) || bytes.Contains(eb, []byte("\nCASE-WATCHDOG")) {
+					keep := filepath.Join(o.VerifDir, "replays", fmt.Sprintf("%s-s%d-c%d.watchdog.stderr", p.ID, o.Seed, lastBegin))
+					os.WriteFile(keep, eb, 0o644)
+					a.mu.Lock()
+					a.incon++
+					a.results++
+					a.evals++
+					a.broken = append(a.broken, fmt.Sprintf("case %d inconclusive: the case driver itself was stuck for %v [%s]", lastBegin, CaseBudget, keep))
+					a.mu.Unlock()
+					next = lastBegin + stride
+					continue
+				}
 				cur, _ := os.ReadFile(out + ".cur")
 				curs := strings.TrimRight(string(cur), "\x00")
 				if curs != "" {
